@@ -7,7 +7,8 @@
    component size >= npixels); [sorted_q] is the ordering guard on the level list; [ws_ok] says that the
    Section variable [ws] (skimage's watershed) satisfies [ws_spec_b] on every well-formed marker array. *)
 From Coq Require Import List Arith ZArith QArith Bool.
-From PV Require Import lib.Cases lib.Conn C04_Model C04_Proofs C04_PathModel C04_PathProofs C06M_Model C06M_Proofs.
+From PV Require Import lib.Cases lib.Conn C04_Model C04_Proofs C04_PathModel C04_PathProofs C06M_Model C06M_Proofs C06M_Link.
+From PV Require C06_Model C06_Proofs.
 Import ListNotations.
 Close Scope Q_scope.
 Local Open Scope nat_scope.
@@ -139,6 +140,85 @@ Theorem children_contain_their_marker : forall ny nx conn8 npix data smask ws co
        forall x, x < npx ny nx -> nth x M 0 = nth q M 0 -> nth x ch 0 = nth p ch 0).
 Proof. exact finish_children_lemma. Qed.
 Print Assumptions children_contain_their_marker.
+
+(* whenever make_markers returns an array it carries at least two different marker labels *)
+Theorem markers_at_least_two : forall ny nx conn8 npix data smask t0 rest M,
+  sorted_q (t0 :: rest) = true ->
+  make_markers ny nx conn8 npix data smask t0 rest = Some M ->
+  2 <= length (fresh_labels M).
+Proof. exact markers_two_lemma. Qed.
+Print Assumptions markers_at_least_two.
+
+(* THE CONTRAST RULE, exactly as coded: a child is pruned-eligible iff flux / source_sum < contrast, i.e.
+   flux < contrast * source_sum when source_sum > 0, the REVERSED inequality when source_sum < 0, and
+   flux < 0 when source_sum = 0 (0/0 = NaN and +inf compare false) *)
+Theorem contrast_rule_positive_sum : forall flux ssum c, (0 < ssum)%Z ->
+  (fv_ltq (frac_of flux ssum) c = true <-> (inject_Z flux < c * inject_Z ssum)%Q).
+Proof. exact contrast_rule_pos_lemma. Qed.
+Print Assumptions contrast_rule_positive_sum.
+Theorem contrast_rule_negative_sum : forall flux ssum c, (ssum < 0)%Z ->
+  (fv_ltq (frac_of flux ssum) c = true <-> (c * inject_Z ssum < inject_Z flux)%Q).
+Proof. exact contrast_rule_neg_lemma. Qed.
+Print Assumptions contrast_rule_negative_sum.
+Theorem contrast_rule_zero_sum : forall flux c, (0 <= Qnum c)%Z ->
+  (fv_ltq (frac_of flux 0) c = true <-> (flux < 0)%Z).
+Proof. exact contrast_rule_zero_lemma. Qed.
+Print Assumptions contrast_rule_zero_sum.
+
+(* contrast = 1 at the per-source level (for ANY watershed, no contract needed): when source_sum <> 0 the
+   source is never split -- the footprint guard makes the children's fluxes add up to source_sum, so two or
+   more fractions cannot all be >= 1.  (deblend_sources itself returns early for contrast == 1: C06's
+   contrast_one_is_identity.)  The unconditional form is false: see
+   contrast_one_zero_sum_source_still_split_witness below. *)
+Theorem contrast_one_nonzero_sum_never_splits : forall ny nx data smask ws contrast w1 w2 M ch,
+  Qnum contrast = Zpos (Qden contrast) -> ssum ny nx data smask <> 0%Z ->
+  d_res (finish_source ny nx data smask ws contrast w1 w2 M) = DSome ch -> False.
+Proof. exact contrast_one_lemma. Qed.
+Print Assumptions contrast_one_nonzero_sum_never_splits.
+
+(* the array returned by apply_watershed inside deblend_source (C06_Model's [raw]): footprint pixels only,
+   every label on >= npixels pixels *)
+Theorem watershed_output_labels_have_npixels : forall ny nx conn8 npix data smask ws contrast mode lin nonlin w,
+  (forall t0 rest, lin = t0 :: rest -> sorted_q lin = true) ->
+  (forall t0 rest, nonlin = t0 :: rest -> sorted_q nonlin = true) ->
+  ws_ok ny nx conn8 smask ws ->
+  d_raw (deblend_source ny nx conn8 npix data smask ws contrast mode lin nonlin) = Some w ->
+  length w = npx ny nx /\
+  (forall p, p < npx ny nx -> nth p w 0 <> 0 -> msk smask p = true) /\
+  (forall p, p < npx ny nx -> nth p w 0 <> 0 -> npix <= count_occ Nat.eq_dec w (nth p w 0)).
+Proof. exact deblend_raw_lemma. Qed.
+Print Assumptions watershed_output_labels_have_npixels.
+
+(* LINK INTO C06.  [raw_model l] = the modelled per-source deblender run on the tight cutout of parent l
+   (data[slc], segm[slc] == l flattened in raster order; flat index p <-> pixel (y0 + p / w, x0 + p mod w)),
+   in the 2-D form C06_Model expects.  It satisfies C06's hypothesis (W) [watershed_big] given only the
+   watershed contract and the ordering guard ... *)
+Theorem c06_watershed_hypothesis_discharged :
+  forall ny nx seg dat2 conn8 npix contrast mode (lin nonlin : nat -> list Q) (ws : nat -> list nat -> list nat),
+  (forall l t0 rest, lin l = t0 :: rest -> sorted_q (lin l) = true) ->
+  (forall l t0 rest, nonlin l = t0 :: rest -> sorted_q (nonlin l) = true) ->
+  (forall l, ws_ok (cut_h ny nx seg l) (cut_w ny nx seg l) conn8 (cut_mask ny nx seg l) (ws l)) ->
+  forall l, C06_Proofs.watershed_big ny nx seg npix l
+              (raw_model ny nx seg dat2 conn8 npix contrast mode lin nonlin ws l).
+Proof. exact watershed_big_of_model. Qed.
+Print Assumptions c06_watershed_hypothesis_discharged.
+
+(* ... hence C06's clause "each child >= npixels" (C06_Properties.child_size_ge_npixels_partial) holds for
+   deblend_sources running the modelled deblender, without hypothesis (W) *)
+Theorem c06_children_ge_npixels_from_watershed_contract :
+  forall ny nx seg dat2 conn8 npix contrast mode (lin nonlin : nat -> list Q) (ws : nat -> list nat -> list nat),
+  (forall l t0 rest, lin l = t0 :: rest -> sorted_q (lin l) = true) ->
+  (forall l t0 rest, nonlin l = t0 :: rest -> sorted_q (nonlin l) = true) ->
+  (forall l, ws_ok (cut_h ny nx seg l) (cut_w ny nx seg l) conn8 (cut_mask ny nx seg l) (ws l)) ->
+  forall warns inmap labels_arg nlevels cn cd mode_ok relabel dtmax nproc order r,
+  C06_Model.deblend_sources ny nx seg (raw_model ny nx seg dat2 conn8 npix contrast mode lin nonlin ws)
+    warns inmap npix labels_arg nlevels (cn, cd) mode_ok relabel dtmax nproc order = C06_Model.Ok r ->
+  cn <> cd -> C06_Proofs.valid_schedule ny nx seg npix labels_arg order ->
+  forall p cs c, In (p, cs) (C06_Model.r_dmap r) -> In c cs ->
+    exists ps : list (nat * nat), NoDup ps /\ npix <= length ps /\
+      forall y x, In (y, x) ps -> y < ny /\ x < nx /\ C06_Model.at2 (C06_Model.r_data r) y x = c.
+Proof. exact c06_child_size_lemma. Qed.
+Print Assumptions c06_children_ge_npixels_from_watershed_contract.
 
 (* ---------------- examples / witnesses ---------------- *)
 Definition qi (z : Z) : Q := inject_Z z.
